@@ -26,7 +26,7 @@ txt = ("## 10. Seeded changes and the checks that catch them\n\n"
        "parameter families they need), C17_1 (coupling-convention oracle), C06_1 (user names that are prefixes of published names up to a non-word character),\n"
        "C06_3 (rejection by parse() separated from unreadable modes); third round: C09_4, C15_4, C17_4, C19_4, C01_4, C12_4, C20_4; fourth round: C01_6, C05_5, C16_5 (oracle crash), C16_6;\n"
        "fifth round: C02_6, C11_5, C15_5, C15_6, C19_6, C19_7, C20_6, C20_7; sixth round: C01_7, C03_7, C03_8, C05_7, C10_8, C14_8, C16_7, C16_8, C18_9; seventh round: C02_8, C09_7,\n"
-       "C12_7, C12_8, C13_7, C13_8, C15_7, C19_8 (see §0 for what each needed). The last column is what the property's own quick check printed with the change applied\n"
+       "C12_7, C12_8, C13_7, C13_8, C15_7, C19_8, C19_9 (see §0 for what each needed). The last column is what the property's own quick check printed with the change applied\n"
        "(`MISSED`: exit 0 — see §0 for the ones that are still missed and why); `py/seedconfirm.py` is the script that confirmed each change in a scratch worktree.\n\n"
        "| change | what it breaks (first line of the author's notes) | caught by `./check <ID> --tier quick` as |\n|---|---|---|\n" + "\n".join(rows) + "\n")
 p = V / "DESIGN.md"
